@@ -8,7 +8,7 @@ CONSTANTS
   PowerSet <- TNone
   ParSet <- TNone
   TraceFile = "trace.ndjson"
-  Checked = {"vote", "total", "idx", "lock", "feeds", "lastUpd"}
+  Checked = {"vote", "total", "idx", "lock", "feeds", "lastUpd", "locked"}
   Owned = {"Vote", "EndBlock"}
 SPECIFICATION TraceSpec
 INVARIANTS TInv
